@@ -327,10 +327,34 @@ fn child_hist(args: &Args) {
                         .take(1 + rng.usize(5), rng.usize(4), Kind::Event)
                         .expect("HARNESS: pool exhausted");
                     let emit = cs.emit;
-                    if let Err(p) = workers[t].run(0, move || {
-                        let _ = emit(id);
+                    // one emission in eight makes the receiving collector panic inside its `event`
+                    // callback; the caller catches the panic and the thread goes on: every scope
+                    // and the global default must select exactly as before
+                    let collector_panics = expected.is_some() && rng.chance(1, 8);
+                    if collector_panics {
+                        arcs[expected.unwrap()].panic_on_event.store(id, Ordering::SeqCst);
+                        out.count("emissions_whose_collector_panicked_in_its_callback", 1);
+                        ops.last_mut().unwrap().push_str(" [the collector panics inside event(); caught]");
+                    }
+                    match workers[t].run(0, move || {
+                        let r = std::panic::catch_unwind(std::panic::AssertUnwindSafe(|| {
+                            let _ = emit(id);
+                        }));
+                        match r {
+                            Ok(()) => false,
+                            Err(p) if p.downcast_ref::<u32>() == Some(&4343) => true,
+                            Err(p) => std::panic::resume_unwind(p),
+                        }
                     }) {
-                        fail!("panic during emission", json!({"panic": p}));
+                        Err(p) => fail!("panic during emission", json!({"panic": p})),
+                        Ok(unwound) if unwound != collector_panics => fail!(
+                            "a panic inside the collector's callback did not reach the emitting code as-is",
+                            json!({"collector_panics": collector_panics, "unwound": unwound})
+                        ),
+                        Ok(_) => {}
+                    }
+                    if collector_panics {
+                        arcs[expected.unwrap()].panic_on_event.store(u64::MAX, Ordering::SeqCst);
                     }
                     if global.is_none() && stacks[t].is_empty() && any_scope {
                         touched_before_global[t] = true;
